@@ -15,7 +15,7 @@ ID = 'C12'
 LEVEL = 'exploration'
 SHARD_TIMEOUT = L.SHARD_TIMEOUT
 FAMILY = ('mrs', 'msr_app', 'msr_sys', 'cps', 'setend', 'subs_pc_lr', 'subs_pc_lr_thumb', 'eret', 'wfe', 'wfi', 'nop',
-          'yield', 'sev', 'smc', 'svc', 'clrex', 'rfe', 'ldm_eret')
+          'yield', 'sev', 'smc', 'svc', 'clrex', 'rfe', 'ldm_eret', 'cp')
 RULE = ('lock-step: case = (word from a row of MRS/MSR(imm,reg; application, system)/CPS/SETEND/SUBS PC,LR/ERET/RFE/LDM^/'
         'hints/SVC/SMC, all 16 byte masks via the mask field), value registers holding PSR-like words (legal and illegal '
         'modes, T/J/IT bits set), every mode, secure/non-secure, SCTLR.NMFI, SCR.AW/FW random, three extension '
@@ -55,6 +55,11 @@ def after(ctx, rng, desc):
     if ctx.cfg['arch_version'] >= 7:
         r.sctlr.u = 1
     r.elr_hyp = rng.choice([0x10040, 0x10041, 0x7000])
+    # coprocessor access control: mostly denying, so that the UNDEFINED outcome is what gets compared
+    r.cpacr.value = sum(rng.choice([0, 0, 1, 3]) << (2 * c) for c in range(14))
+    r.nsacr.value = (r.nsacr.value & ~0x3FFF) | rng.getrandbits(14)
+    if ctx.cfg['have_virt_ext']:
+        r.hcptr.value = rng.getrandbits(14) if rng.random() < 0.5 else 0
     desc['nmfi'] = r.sctlr.nmfi
 
 
